@@ -158,7 +158,9 @@ def split_bounds(s, sep, include_separator, allow_blank):
             break
         bounds.append((pos, i + len(sep) if include_separator else i))
         pos = i + len(sep)
-    if not allow_blank and s.endswith(sep) and len(bounds) > 1:
+    # without allow_blank a final EMPTY piece is dropped (what str.splitlines-like callers want); a final piece that
+    # merely ends in characters of the separator ("aaa" split at "aa" -> "", "a") is content and stays
+    if not allow_blank and len(bounds) > 1 and bounds[-1][0] == bounds[-1][1]:
         bounds.pop()
     return bounds
 
@@ -173,4 +175,5 @@ def selftest():
     assert split_bounds("a\n\nb", "\n", False, False) == [(0, 1), (2, 2), (3, 4)]
     assert split_bounds("a\n", "\n", False, False) == [(0, 1)]
     assert split_bounds("a\n", "\n", False, True) == [(0, 1), (2, 2)]
+    assert split_bounds("aaa", "aa", False, False) == [(0, 0), (2, 3)]
     assert split_bounds("a\nb\n", "\n", True, False) == [(0, 2), (2, 4)]
